@@ -177,7 +177,10 @@ def _conform_filename(
         **_default_options(node=original_node, search=search, type_wanted=type_wanted)()
     )
     if original_node is None:
-        emit.file(replacement_node, filename=filename, mode="a", skip_black=False)
+        # Add the definition to the module and emit the whole module, exactly as the
+        # replace path below does, so that the next run finds nothing left to change
+        parsed_ast.body.append(replacement_node)
+        emit.file(parsed_ast, filename=filename, mode="wt", skip_black=False)
         return filename, True
     assert len(search) > 0
 
